@@ -170,6 +170,10 @@ def gen_purity_world(rw, rv, knobs):
     want = knobs["templates"]
     h, w = rw.randrange(5, 10), rw.randrange(5, 10)
     ps = scales(rw)
+    if rw.random() < 0.15:
+        # the same geometry in small units (radians rather than arc-seconds): anything with an absolute tolerance or a rounded key
+        # behaves differently there
+        ps = [p_ * 4.848e-6 for p_ in ps]
     origin = [0.0, 0.0] if rw.random() < 0.7 else [rw.choice([-1.0, 0.5, 2.0]), rw.choice([-0.5, 1.0])]
     margin = rw.choice([1, 1, 2]) if min(h, w) >= 7 else 1
     style = rw.choice(["interior", "circular", "annular", "random", "random", "sparse", "band", "ellipse", "blobs"])
@@ -497,6 +501,8 @@ def gen_preloads_world(rw, rv, knobs):
     h = rw.randrange(max(4, 2 * my + 3), max(5, 2 * my + 3) + 5)
     w = rw.randrange(max(4, 2 * mx + 3), max(5, 2 * mx + 3) + 5)
     ps = scales(rw, aniso_ok=False)
+    if rw.random() < 0.1:
+        ps = [p_ * 4.848e-6 for p_ in ps]  # small units (radians)
     style = rw.choice(["interior", "random", "circular", "band", "band", "band", "ellipse", "blobs"])
     # footprint of the kernel must stay inside the frame: margin per axis
     bits = []
